@@ -189,3 +189,62 @@ func verifC17_ConcurrentResize() {
 	verifQuiesce()
 	verifAssert(vAvailable(l) == int64(n2), "capacity-equals-the-last-cap")
 }
+
+// verifC17_ResizeTwice: two run-time changes in a row with connections open - the second one
+// may arrive while the first (a shrink below the current usage) is still waiting for
+// connections to close. Nobody is accepted at or above the LAST cap, the waiting client is
+// admitted as soon as there is room under it, and once everything has closed the free
+// capacity is exactly the last cap.
+func verifC17_ResizeTwice() {
+	cap0 := verifChoose("cap0", 3) + 1
+	l := NewLimitListener(&vListener{}, uint32(cap0))
+	open := verifChoose("open", cap0+1)
+	var conns [4]net.Conn
+	for i := 0; i < open; i++ {
+		c, err := l.Accept()
+		verifAssert(err == nil, "accept-below-cap")
+		conns[i] = c
+	}
+	n1 := verifChoose("newCap1", 4) // 0..3
+	n2 := verifChoose("newCap2", 4)
+	l.SetMaxConnection(uint32(n1))
+	verifQuiesce()
+	if open > n1 {
+		verifCover("second-change-while-a-shrink-is-pending")
+	}
+	l.SetMaxConnection(uint32(n2))
+	verifQuiesce()
+
+	var extra net.Conn
+	go func() {
+		c, err := l.Accept()
+		if err == nil {
+			extra = c
+		}
+	}()
+	verifQuiesce()
+	verifAssert(extra == nil || open < n2, "no-accept-at-or-above-the-last-cap")
+	// connections close one by one; the waiting client gets in exactly when there is room
+	for open > 0 {
+		if extra != nil {
+			verifAssert(open+1 <= n2, "open-connections-within-the-last-cap")
+		}
+		open--
+		conns[open].Close()
+		verifQuiesce()
+		if extra == nil {
+			verifAssert(open >= n2, "waiting-client-admitted-as-soon-as-there-is-room")
+		}
+	}
+	if n2 > 0 {
+		verifAssert(extra != nil, "waiting-client-admitted-as-soon-as-there-is-room")
+		verifCover("admitted")
+	}
+	if extra != nil {
+		extra.Close()
+		verifQuiesce()
+	}
+	if n2 > 0 {
+		verifAssert(vAvailable(l) == int64(n2), "free-capacity-equals-the-last-cap-when-idle")
+	}
+}
